@@ -3,9 +3,14 @@
 // Part 1 (histories): every sequence, up to a length bound, of queries built to
 // collide in the cache key (same name from clients of different locations,
 // types, classes – including the decimal-concatenation collision of the key
-// format –, with/without EDNS and ECS, upper/lower case, every response class)
-// and reloads, run against two REAL handlers over the same files, one with the
-// cache enabled and one without: at every step the two responses must be equal.
+// format –, with/without EDNS and ECS, upper/lower case, every response class;
+// and PRESENTATION variants of one question, i.e. everything of a query that is
+// not in the cache key: message id, RD/CD/AD flags, opcode, a second question,
+// EDNS size and DO, spelling of the name) and reloads, run against two REAL
+// handlers over the same files, one with the cache enabled and one without: at
+// every step the two responses must be equal - header (id, opcode, every flag,
+// rcode) and question section EXACTLY, the record sections as sets with the
+// owner names compared case-insensitively.
 // Part 2 (schedules): every interleaving, within the preemption bound, of a
 // query computing its answer, a reload swapping the database and purging the
 // cache, and a second query; a query that starts after the reload returned
@@ -18,6 +23,7 @@ import (
 	"net"
 	"os"
 	"runtime"
+	"runtime/pprof"
 	"sort"
 	"strings"
 
@@ -48,8 +54,16 @@ M*.example.com,m1
 Cc.example.com,www.example.com,300,,
 &deleg.example.com,198.51.101.%[1]d,ns.deleg.example.com,%[2]d,,
 +valid.example.com,192.0.2.250,300,,
-`, g, 3600+g))
++%[3]s,192.0.9.%[1]d,300,,
+`, g, 3600+g, longName))
 }
+
+// longName has wire length 255. The reply to an A query for it takes 287 bytes when the answer's
+// owner name is compressed against the question and 540 when it is not: a reply whose owner name is
+// spelled differently from the question (miekg/dns compresses case-sensitively) does not fit the
+// 512 bytes of a client without EDNS.
+var longName = strings.Repeat("l", 49) + "." + strings.Repeat("m", 63) + "." + strings.Repeat("n", 63) + "." + strings.Repeat("o", 63) + ".example.com"
+
 
 type qspec struct {
 	id     string
@@ -57,45 +71,135 @@ type qspec struct {
 	qtype  uint16
 	qclass uint16
 	client string
-	edns   string // "", "plain", "ecs"
+	edns   string // "", "plain", "ecs", "do512"
+	pres   presentation
+}
+
+// presentation: the parts of a query message that are not in the cache key and
+// that the reply must nevertheless take from THIS query (zero value: opcode
+// QUERY, RD set - what dns.Msg.SetQuestion makes -, one question).
+type presentation struct {
+	norec  bool // RD clear
+	cd, ad bool
+	opcode int
+	second bool // a second question (other name, TXT)
 }
 
 var queries = []qspec{
-	{"www-A-none", "www.example.com.", dns.TypeA, dns.ClassINET, "8.8.8.8", ""},
-	{"www-A-aa", "www.example.com.", dns.TypeA, dns.ClassINET, "10.1.1.1", ""},
-	{"loc-A-aa", "loc.example.com.", dns.TypeA, dns.ClassINET, "10.1.1.1", ""},
-	{"loc-A-bb", "loc.example.com.", dns.TypeA, dns.ClassINET, "192.168.1.1", ""},
-	{"loc-A-none", "loc.example.com.", dns.TypeA, dns.ClassINET, "8.8.8.8", ""},
-	{"www-AAAA", "www.example.com.", dns.TypeAAAA, dns.ClassINET, "8.8.8.8", ""},
-	{"nx-A", "nx.example.com.", dns.TypeA, dns.ClassINET, "8.8.8.8", ""},
-	{"deleg-A", "x.deleg.example.com.", dns.TypeA, dns.ClassINET, "8.8.8.8", ""},
-	{"refused-A", "other.org.", dns.TypeA, dns.ClassINET, "8.8.8.8", ""},
-	{"www-A-edns", "www.example.com.", dns.TypeA, dns.ClassINET, "8.8.8.8", "plain"},
-	{"www-A-ecs", "www.example.com.", dns.TypeA, dns.ClassINET, "8.8.8.8", "ecs"},
-	{"WWW-A-upper", "WWW.EXAMPLE.COM.", dns.TypeA, dns.ClassINET, "8.8.8.8", ""},
-	{"txt-TXT", "txt.example.com.", dns.TypeTXT, dns.ClassINET, "8.8.8.8", ""},
-	{"www-A-CH", "www.example.com.", dns.TypeA, dns.ClassCHAOS, "8.8.8.8", ""},
-	{"x-A-class1001", "x.example.com.", dns.TypeA, 1001, "8.8.8.8", ""},
-	{"1x-A-class100", "1x.example.com.", dns.TypeA, 100, "8.8.8.8", ""},
-	{"c-A-cname", "c.example.com.", dns.TypeA, dns.ClassINET, "8.8.8.8", ""},
+	{"www-A-none", "www.example.com.", dns.TypeA, dns.ClassINET, "8.8.8.8", "", presentation{}},
+	{"www-A-aa", "www.example.com.", dns.TypeA, dns.ClassINET, "10.1.1.1", "", presentation{}},
+	{"loc-A-aa", "loc.example.com.", dns.TypeA, dns.ClassINET, "10.1.1.1", "", presentation{}},
+	{"loc-A-bb", "loc.example.com.", dns.TypeA, dns.ClassINET, "192.168.1.1", "", presentation{}},
+	{"loc-A-none", "loc.example.com.", dns.TypeA, dns.ClassINET, "8.8.8.8", "", presentation{}},
+	{"www-AAAA", "www.example.com.", dns.TypeAAAA, dns.ClassINET, "8.8.8.8", "", presentation{}},
+	{"nx-A", "nx.example.com.", dns.TypeA, dns.ClassINET, "8.8.8.8", "", presentation{}},
+	{"deleg-A", "x.deleg.example.com.", dns.TypeA, dns.ClassINET, "8.8.8.8", "", presentation{}},
+	{"refused-A", "other.org.", dns.TypeA, dns.ClassINET, "8.8.8.8", "", presentation{}},
+	{"www-A-edns", "www.example.com.", dns.TypeA, dns.ClassINET, "8.8.8.8", "plain", presentation{}},
+	{"www-A-ecs", "www.example.com.", dns.TypeA, dns.ClassINET, "8.8.8.8", "ecs", presentation{}},
+	{"WWW-A-upper", "WWW.EXAMPLE.COM.", dns.TypeA, dns.ClassINET, "8.8.8.8", "", presentation{}},
+	{"txt-TXT", "txt.example.com.", dns.TypeTXT, dns.ClassINET, "8.8.8.8", "", presentation{}},
+	{"www-A-CH", "www.example.com.", dns.TypeA, dns.ClassCHAOS, "8.8.8.8", "", presentation{}},
+	{"x-A-class1001", "x.example.com.", dns.TypeA, 1001, "8.8.8.8", "", presentation{}},
+	{"1x-A-class100", "1x.example.com.", dns.TypeA, 100, "8.8.8.8", "", presentation{}},
+	{"c-A-cname", "c.example.com.", dns.TypeA, dns.ClassINET, "8.8.8.8", "", presentation{}},
 	// types and classes that agree with A / IN in their low byte (a key that stores them in one byte collides)
-	{"www-TYPE257", "www.example.com.", 257, dns.ClassINET, "8.8.8.8", ""},
-	{"www-A-class257", "www.example.com.", dns.TypeA, 257, "8.8.8.8", ""},
-	{"www-TYPE65281", "www.example.com.", 65281, dns.ClassINET, "8.8.8.8", ""},
+	{"www-TYPE257", "www.example.com.", 257, dns.ClassINET, "8.8.8.8", "", presentation{}},
+	{"www-A-class257", "www.example.com.", dns.TypeA, 257, "8.8.8.8", "", presentation{}},
+	{"www-TYPE65281", "www.example.com.", 65281, dns.ClassINET, "8.8.8.8", "", presentation{}},
+	// presentation variants: the cache key of www-A-none (resp. nx-A), another message on the wire
+	{"www-A-norec", "www.example.com.", dns.TypeA, dns.ClassINET, "8.8.8.8", "", presentation{norec: true}},
+	{"www-A-cd-ad", "www.example.com.", dns.TypeA, dns.ClassINET, "8.8.8.8", "", presentation{cd: true, ad: true}},
+	{"www-A-notify", "www.example.com.", dns.TypeA, dns.ClassINET, "8.8.8.8", "", presentation{opcode: dns.OpcodeNotify}},
+	{"www-A-2questions", "www.example.com.", dns.TypeA, dns.ClassINET, "8.8.8.8", "", presentation{second: true}},
+	{"wWw-A-mixed-edns-do512", "wWw.ExAmPlE.cOm.", dns.TypeA, dns.ClassINET, "8.8.8.8", "do512", presentation{}},
+	{"NX-A-upper-norec", "NX.EXAMPLE.COM.", dns.TypeA, dns.ClassINET, "8.8.8.8", "", presentation{norec: true}},
+	// a name so long that the size of the reply (no EDNS: 512 bytes) depends on the spelling of the owner name
+	{"long-A", longName + ".", dns.TypeA, dns.ClassINET, "8.8.8.8", "", presentation{}},
+	{"LONG-A-upper", strings.ToUpper(longName) + ".", dns.TypeA, dns.ClassINET, "8.8.8.8", "", presentation{}},
 }
 
-func (q qspec) msg() *dns.Msg {
+// msg builds the query; pos is its position in the history: every query of a
+// history has its own message id (the same op twice differs in the id only).
+func (q qspec) msg(pos int) *dns.Msg {
 	m := new(dns.Msg)
 	m.SetQuestion(q.name, q.qtype)
 	m.Question[0].Qclass = q.qclass
-	m.Id = 77
+	m.Id = q.msgID(pos)
+	m.RecursionDesired = !q.pres.norec
+	m.CheckingDisabled, m.AuthenticatedData = q.pres.cd, q.pres.ad
+	m.Opcode = q.pres.opcode
+	if q.pres.second {
+		m.Question = append(m.Question, dns.Question{Name: "txt.example.com.", Qtype: dns.TypeTXT, Qclass: dns.ClassINET})
+	}
 	switch q.edns {
 	case "plain":
 		m.SetEdns0(1232, false)
+	case "do512":
+		m.SetEdns0(512, true)
 	case "ecs":
 		dnsfix.WithECS(m, 1, 24, net.ParseIP("203.0.113.0").To4())
 	}
 	return m
+}
+
+func (q qspec) msgID(pos int) uint16 {
+	for i, x := range queries {
+		if x.id == q.id {
+			return uint16(1000 + 16*i + pos)
+		}
+	}
+	panic("unknown query " + q.id)
+}
+
+// ---- comparison of the two handlers' responses ----
+
+// aspects of a response, each rendered canonically; the first group is compared
+// exactly (it must be taken from the query being answered, whatever the cache
+// holds), the sections as sorted sets with lower-cased owner names.
+var aspectNames = []string{"messages", "id", "opcode", "qr", "aa", "tc", "rd", "ra", "z", "ad", "cd", "rcode", "question", "answer", "authority", "additional"}
+
+func aspects(r dnsfix.Result) []string {
+	if r.Panicked != nil {
+		return []string{fmt.Sprintf("PANIC %v", r.Panicked)}
+	}
+	if len(r.Msgs) != 1 {
+		return []string{fmt.Sprintf("%d messages written; returned rcode=%d err=%v", len(r.Msgs), r.Rcode, r.Err)}
+	}
+	m := r.Msgs[0]
+	var qs []string
+	for _, q := range m.Question {
+		qs = append(qs, fmt.Sprintf("%q/%d/%d", q.Name, q.Qtype, q.Qclass))
+	}
+	sec := func(rrs []dns.RR) string { return dnsfix.Canon(&dns.Msg{Extra: rrs}) }
+	b := func(v bool) string { return fmt.Sprint(v) }
+	return []string{"1", fmt.Sprint(m.Id), fmt.Sprint(m.Opcode), b(m.Response), b(m.Authoritative), b(m.Truncated), b(m.RecursionDesired), b(m.RecursionAvailable), b(m.Zero), b(m.AuthenticatedData), b(m.CheckingDisabled),
+		fmt.Sprint(m.Rcode), strings.Join(qs, " "), sec(m.Answer), sec(m.Ns), sec(m.Extra)}
+}
+
+// differing returns the names of the aspects in which two results differ ("" = equal).
+func differing(a, b dnsfix.Result) string {
+	x, y := aspects(a), aspects(b)
+	if len(x) != len(aspectNames) || len(y) != len(aspectNames) {
+		if len(x) == len(y) && x[0] == y[0] {
+			return ""
+		}
+		return "messages"
+	}
+	var d []string
+	for i := range x {
+		if x[i] != y[i] {
+			d = append(d, aspectNames[i])
+		}
+	}
+	return strings.Join(d, "+")
+}
+
+func render(r dnsfix.Result) string {
+	if r.Panicked != nil || len(r.Msgs) != 1 {
+		return dnsfix.CanonResult(r)
+	}
+	return r.Msgs[0].String()
 }
 
 var ops []string // query ids + reloads
@@ -120,8 +224,9 @@ func openPair() *pair {
 
 func (p *pair) close() { p.cached.Close(); p.plain.Close() }
 
-// step runs one op on both handlers; returns (description of disagreement or "").
-func (p *pair) step(op string) string {
+// step runs one op (the pos-th of its history) on both handlers; returns the aspects in
+// which the two responses differ and a description ("" = no disagreement).
+func (p *pair) step(op string, pos int) (string, string) {
 	switch op {
 	case "reload-full":
 		p.gen++
@@ -130,17 +235,17 @@ func (p *pair) step(op string) string {
 		}
 		for _, h := range []*dnsfix.Handler{p.cached, p.plain} {
 			if err := h.H.Reload(*dnsserver.NewFullReloadSignal(files[p.gen])); err != nil {
-				return "reload failed: " + err.Error()
+				return "reload", "reload failed: " + err.Error()
 			}
 		}
-		return ""
+		return "", ""
 	case "reload-partial":
 		for _, h := range []*dnsfix.Handler{p.cached, p.plain} {
 			if err := h.H.Reload(*dnsserver.NewPartialReloadSignal()); err != nil {
-				return "reload failed: " + err.Error()
+				return "reload", "reload failed: " + err.Error()
 			}
 		}
-		return ""
+		return "", ""
 	}
 	var q qspec
 	for _, x := range queries {
@@ -148,106 +253,129 @@ func (p *pair) step(op string) string {
 			q = x
 		}
 	}
-	a := dnsfix.CanonResult(p.cached.Serve(q.msg(), q.client, false, 8))
-	b := dnsfix.CanonResult(p.plain.Serve(q.msg(), q.client, false, 8))
-	if a != b {
-		return fmt.Sprintf("with cache:\n%s\nwithout cache:\n%s", a, b)
+	a := p.cached.Serve(q.msg(pos), q.client, false, 8)
+	b := p.plain.Serve(q.msg(pos), q.client, false, 8)
+	if d := differing(a, b); d != "" {
+		return d, fmt.Sprintf("query %s (position %d):\n%v\nresponses differ in: %s\nwith cache:\n%s\nwithout cache:\n%s", op, pos, q.msg(pos), d, render(a), render(b))
 	}
-	return ""
+	return "", ""
 }
 
-func histories(r *vlib.Run, maxLen int) {
-	n := len(ops)
-	// enumerate by first op in parallel
-	type res struct {
-		hist   []string
-		detail string
+// run replays a history on a fresh pair; it returns the position of the first
+// disagreement (-1: none), the differing aspects and the description.
+func run(hist []string) (int, string, string) {
+	p := openPair()
+	defer p.close()
+	for i, op := range hist {
+		if d, bad := p.step(op, i); bad != "" {
+			return i, d, bad
+		}
 	}
-	total := make([]int64, n)
-	nontriv := make([]int64, n)
-	found := make([][]res, n)
-	vlib.ParallelFor(n, func(i0 int) {
-		var rec func(hist []string)
-		rec = func(hist []string) {
-			// replay on a fresh pair (state = history)
-			p := openPair()
-			var bad string
-			for _, op := range hist {
-				if bad = p.step(op); bad != "" {
-					break
-				}
-			}
-			p.close()
-			total[i0]++
-			// nontrivial: the last op is a query whose key was asked before in this history (a cache hit is possible)
-			last := hist[len(hist)-1]
-			for _, op := range hist[:len(hist)-1] {
-				if op == last || strings.HasPrefix(op, "reload") {
-					nontriv[i0]++
-					break
-				}
-			}
-			if bad != "" {
-				found[i0] = append(found[i0], res{append([]string{}, hist...), bad})
-				return // minimal: do not extend a failing history
-			}
-			if len(hist) == maxLen {
-				return
-			}
-			for _, op := range ops {
-				rec(append(hist, op))
+	return -1, "", ""
+}
+
+// minimal reports whether no proper subsequence of a failing history fails (anywhere).
+// (Every failing history that is not extended is found by the enumeration itself, so this
+// is the same as: no other reported history is a subsequence of this one.)
+func minimal(hist []string, evals *int64) bool {
+	n := len(hist)
+	for mask := 1; mask < (1<<uint(n))-1; mask++ {
+		var sub []string
+		for i := 0; i < n; i++ {
+			if mask&(1<<uint(i)) != 0 {
+				sub = append(sub, hist[i])
 			}
 		}
-		rec([]string{ops[i0]})
-	})
-	var t, nt int64
-	// keep only subsequence-minimal failing histories (every shorter failing history has been found:
-	// histories are extended only while they pass)
-	var all []res
-	for i := range total {
-		all = append(all, found[i]...)
-	}
-	isSubseq := func(a, b []string) bool { // a is a proper subsequence of b
-		if len(a) >= len(b) {
+		*evals++
+		if at, _, _ := run(sub); at >= 0 {
 			return false
 		}
-		j := 0
-		for _, x := range b {
-			if j < len(a) && a[j] == x {
-				j++
+	}
+	return true
+}
+
+// histShards is the number of shard processes the histories are spread over (a
+// constant, so that the division of work does not depend on the machine). One
+// process with many threads spends most of its time in the kernel's address-space
+// lock: every history opens (mmap) and closes (munmap) two databases.
+const histShards = 16
+
+// histories enumerates, in shard k of histShards, every history whose first two ops
+// (i, j) have (i*len(ops)+j) mod histShards == k, and the one-op histories [i] with
+// i mod histShards == k. Every history is replayed on a fresh pair (state = history).
+func histories(r *vlib.Run, maxLen, k int) {
+	n := len(ops)
+	var total, nontriv, minEvals int64
+	report := func(hist []string, at int, d, detail string) {
+		if !minimal(hist, &minEvals) {
+			return
+		}
+		// fingerprint: the whole minimal history (no proper subsequence of it fails) and the aspects
+		// of the response in which the two handlers disagree
+		r.Violate("hist/"+strings.Join(hist, ",")+"#"+d, detail, map[string]interface{}{"part": "history", "history": hist})
+	}
+	var rec func(hist []string)
+	rec = func(hist []string) {
+		at, d, bad := run(hist)
+		total++
+		// nontrivial: the last op is a query whose op was asked before in this history (a cache hit is possible), or follows a reload
+		last := hist[len(hist)-1]
+		for _, op := range hist[:len(hist)-1] {
+			if op == last || strings.HasPrefix(op, "reload") || (keyOf[op] != "" && keyOf[op] == keyOf[last]) {
+				nontriv++
+				break
 			}
 		}
-		return j == len(a)
-	}
-	for i := range found {
-		var keep []res
-		for _, f := range found[i] {
-			minimal := true
-			for _, g := range all {
-				if isSubseq(g.hist, f.hist) {
-					minimal = false
-					break
-				}
-			}
-			if minimal {
-				keep = append(keep, f)
-			}
+		if at >= 0 {
+			report(hist, at, d, bad)
+			return // do not extend a failing history
 		}
-		found[i] = keep
-	}
-	for i := range total {
-		t += total[i]
-		nt += nontriv[i]
-		for _, f := range found[i] {
-			// fingerprint: the pair of ops that interact = last op and the earliest earlier op without which it passes is costly to find;
-			// use the whole minimal history (histories are extended only while they pass, so every reported one is minimal in length)
-			r.Violate("hist/"+strings.Join(f.hist, ","), f.detail, map[string]interface{}{"part": "history", "history": f.hist})
+		if len(hist) == maxLen {
+			return
+		}
+		for _, op := range ops {
+			rec(append(hist[:len(hist):len(hist)], op))
 		}
 	}
-	r.Add("history_evaluations", t)
-	r.Add("history_nontrivial", nt)
-	r.Sample(map[string]interface{}{"history": []string{"www-A-none", "reload-full", "www-A-none"}})
-	r.Sample(map[string]interface{}{"history": []string{"x-A-class1001", "1x-A-class100"}})
+	for i := 0; i < n; i++ {
+		h1 := []string{ops[i]}
+		at, d, bad := run(h1)
+		if i%histShards == k {
+			total++
+			if at >= 0 {
+				report(h1, at, d, bad)
+			}
+		}
+		if at >= 0 || maxLen < 2 {
+			continue
+		}
+		for j := 0; j < n; j++ {
+			if (i*n+j)%histShards == k {
+				rec([]string{ops[i], ops[j]})
+			}
+		}
+	}
+	r.Add("history_evaluations", total)
+	r.Add("history_nontrivial", nontriv)
+	r.Add("history_replays_spent_on_minimality", minEvals)
+	if k == 0 {
+		r.Sample(map[string]interface{}{"history": []string{"www-A-none", "reload-full", "www-A-none"}})
+		r.Sample(map[string]interface{}{"history": []string{"x-A-class1001", "1x-A-class100"}})
+		r.Sample(map[string]interface{}{"history": []string{"www-A-none", "www-A-notify"}, "query_ids": []uint16{queries[0].msgID(0), queryByID("www-A-notify").msgID(1)}})
+	}
+}
+
+// keyOf maps a query op to (client, lower-cased name, type, class): ops with the same value
+// compete for one cache entry whatever their presentation.
+var keyOf = map[string]string{}
+
+func queryByID(id string) qspec {
+	for _, q := range queries {
+		if q.id == id {
+			return q
+		}
+	}
+	panic("unknown query " + id)
 }
 
 // ---- part 2: schedules ----
@@ -377,6 +505,7 @@ func main() {
 	dnsfix.Quiet(dir)
 	for _, q := range queries {
 		ops = append(ops, q.id)
+		keyOf[q.id] = fmt.Sprintf("%s|%s|%d|%d|ecs=%v", q.client, strings.ToLower(q.name), q.qtype, q.qclass, q.edns == "ecs")
 	}
 	ops = append(ops, "reload-full", "reload-partial")
 	files = map[int]string{}
@@ -394,14 +523,21 @@ func main() {
 	idx, n, isShard := r.Shard()
 	bound := r.Pick(2, 3)
 	if !isShard {
-		runtime.GOMAXPROCS(runtime.NumCPU())
-		histories(r, r.Pick(3, 4)) // no exploration active: the instrumented handler runs in pass-through mode
-		runtime.GOMAXPROCS(1)
-		r.ForkShards(len(scens))
+		// shards 0..len(scens)-1: one scenario each (the long ones first); the others: histories
+		r.ForkShards(len(scens) + histShards)
+	} else if idx >= len(scens) {
+		_ = n
+		if pf := os.Getenv("VERIF_C12_PROF"); pf != "" {
+			f, _ := os.Create(pf)
+			pprof.StartCPUProfile(f)
+		}
+		histories(r, r.Pick(3, 4), idx-len(scens))
+		pprof.StopCPUProfile() // no exploration active: the instrumented handler runs in pass-through mode
+		r.Finish()
 	} else {
 		sfiles = srvfix.BuildFiles(srvfix.TmpDir(dir), 4)
 		sfiles.Preopen()
-		for u := idx; u < len(scens); u += n {
+		for u := idx; u < len(scens); u += len(scens) {
 			sc := scens[u]
 			outcomes := map[string]bool{}
 			st := vsched.Explore(vsched.Config{Bound: bound, MaxSteps: 20000}, func() (func(), func(*vsched.Result)) {
@@ -439,7 +575,7 @@ func main() {
 	r.Set("evaluations", r.Int("schedule_executions")+r.Int("history_evaluations"))
 	r.Set("traces_validated_against_impl", r.Int("schedule_executions")+r.Int("history_evaluations"))
 	r.Set("distinct_nontrivial", r.Int("history_nontrivial")+r.Int("schedule_distinct_outcomes"))
-	r.Set("rule", "part 1: every history of length <= the bound over the ops "+strings.Join(ops, " ")+" replayed on a fresh pair of real handlers (cache on / off) over the same CDB files; at each step both responses must be canonically equal; nontrivial = histories whose last query repeats an earlier op's key or follows a reload. part 2: every interleaving within the preemption bound of the listed scenarios on the instrumented handler with the cache enabled (scheduling points at every lock, cache and backend call); a query started after a reload returned must carry the new generation")
+	r.Set("rule", "part 1: every history of length <= the bound over the ops "+strings.Join(ops, " ")+" replayed on a fresh pair of real handlers (cache on / off) over the same CDB files; the i-th query of a history carries its own message id; at each step the two responses must agree in: number of messages, id, opcode, QR, AA, TC, RD, RA, Z, AD, CD, rcode and the question section (name bytes, type, class) EXACTLY, and in the answer / authority / additional sections as sets of records with lower-cased owner names (OPT: size, version, DO, extended rcode, options). The query ops from www-A-norec to NX-A-upper-norec are presentation variants of www-A-none / nx-A: same cache key, other RD/CD/AD flags, opcode NOTIFY, a second question, EDNS 512+DO with a mixed-case name, upper-case name with RD clear; long-A / LONG-A-upper ask, without EDNS, for a 255-byte name whose reply fits 512 bytes only if the owner name compresses against the question. Histories are spread over "+fmt.Sprint(histShards)+" shard processes by their first two ops; a failing history is not extended and is reported only if none of its proper subsequences fails (each is replayed). nontrivial = histories whose last query has the cache key of an earlier query or follows a reload. part 2: every interleaving within the preemption bound of the listed scenarios on the instrumented handler with the cache enabled (scheduling points at every lock, cache and backend call); a query started after a reload returned must carry the new generation")
 	r.Assume = []string{"weighted answers (two or more address candidates) are excluded by construction of the data; cache entry expiry (1000 s) is not reached", "cache keys beyond the alphabet's collisions are not covered"}
 	r.Finish()
 }
